@@ -114,11 +114,17 @@ def cutAbove (cmp : V → V → Ordering) (x : V) : Con V → Bool
   | .mk c v => cmp v x == .gt || (cmp v x == .eq && (c == .gt || c == .le))
   | .star => false
 
+/-- Walking the version-sorted bounds upward until the first cut above `x`:
+`prevUp` says whether the nearest cut below `x` points upward. -/
+def regionWalk (cmp : V → V → Ordering) (x : V) : Bool → List (Con V) → Bool
+  | prevUp, [] => prevUp
+  | prevUp, b :: rest =>
+      if cutAbove cmp x b then prevUp || b.isUpper else regionWalk cmp x b.isLower rest
+
 /-- `x` is in the region the (version-sorted) bounds describe: the nearest cut below it points
 upward or the nearest cut above it points downward. -/
 def inRegion (cmp : V → V → Ordering) (x : V) (bs : List (Con V)) : Bool :=
-  (match (bs.filter (cutBelow cmp x)).getLast? with | some b => b.isLower | none => false)
-  || (match (bs.filter (cutAbove cmp x)).head? with | some b => b.isUpper | none => false)
+  regionWalk cmp x false bs
 
 /-- The set a possibly redundant (version-sorted, distinct) constraint list denotes. -/
 def denoteR (cmp : V → V → Ordering) (cs : List (Con V)) (x : V) : Bool :=
